@@ -38,3 +38,11 @@ func init() {
 			{Name: "fuzz", Fuzz: "FuzzLex", FuzzSec: 300},
 		}})
 }
+
+func init() {
+	reg(PropCfg{ID: "C02", Pkg: "c02", Level: "exploration",
+		Rule: "analyzer-accepted programs from the wild generator (typed model grammar plus hostile operands: zero divisors, negative/huge shift counts and exponents, float ** and / 0, unwrap/expect of none, unicode indexing, out-of-range indices) x backend in {VM, interpreter} x CoreLimits drawn from {1..8,16,64,500,10000}^3 (40% of cases); validity predicate: the sandbox worker answers with outcome in {ok, exception, fatal, terminated}, never dies (Go panic / fatal error), never hangs (double-checked budget), typed host functions only receive conforming values; non-trivial = accepted program containing >= 1 hostile construct; distinct by program text + limits",
+		Jobs: []Job{
+			{Name: "robust", Run: "^TestRobust$", Checks: [2]int{400, 8000}, Shards: [2]int{6, 16}},
+		}})
+}
